@@ -11,6 +11,7 @@ import re
 
 from .. import gen
 from .. import refmodel as M
+from .. import salt as SALT
 
 ID = "C20"
 LEVEL = "exploration"
@@ -122,6 +123,8 @@ def judge(case, rep, S):
     models = [dict(DEFAULT) for _ in objs]
     if nobj > 1:
         rep.cnt("multi_object_histories")
+    if rng.random() < 0.2:
+        SALT.salt(S, objs[0], seqs[0], rng, rep, cheap=len(seqs[0]) > 100)
     for o, s, m in zip(objs, seqs, models):
         check_render(rep, o.get_HTMLColorString(), s, m, "fresh object")
     hist = []
